@@ -23,5 +23,9 @@ func Run(c *ev.Ctx) int {
 	c.Assume("listing requests that are answered with an error are counted as observations, not judged")
 	laneDirect(c)
 	laneE2E(c)
-	return c.Finish("lane A: backend.Walk on fstest.MapFS trees from generated key sets (two populations: with / without a directory name d next to a sibling d+<byte below '/'>), x prefix {none, dir, partial, nomatch} x delimiter {none, /, -, ab, !} x max-keys {0,1,2,3,7,1000} x marker {none, key, dirobj, cp, inside-cp, between, before, beyond}; lane B: the same through ListObjects V1/V2 on real posix buckets filled through the API with an upload in flight; oracle: reference listing from the S3 rules, first page must be a leading part of it, following the returned markers must yield every entry after the start position exactly once in ascending order with <= max-keys per page and terminate; a case is distinct by (lane, key-set shape, prefix class, delimiter, max-keys, marker class) and counts only with >= 2 reference entries", 200)
+	rc := c.Rng("concurrent")
+	for _, m := range []string{"plain", "fewprocs", "race"} {
+		laneConcurrent(c, m, rc.Int63n(1<<40))
+	}
+	return c.Finish("lane A: backend.Walk on fstest.MapFS trees from generated key sets (two populations: with / without a directory name d next to a sibling d+<byte below '/'>), x prefix {none, dir, partial, nomatch} x delimiter {none, /, -, ab, !} x max-keys {0,1,2,3,7,1000} x marker {none, key, dirobj, cp, inside-cp, between, before, beyond}; lane B: the same through ListObjects V1/V2 on real posix buckets filled through the API with an upload in flight; lane C: 16 clients listing three buckets at once (default scheduler, GOMAXPROCS=2, race-instrumented gateway), every answer must equal the answer of the same request sent alone; oracle: reference listing from the S3 rules, first page must be a leading part of it, following the returned markers must yield every entry after the start position exactly once in ascending order with <= max-keys per page and terminate; a case is distinct by (lane, key-set shape, prefix class, delimiter, max-keys, marker class) and counts only with >= 2 reference entries", 200)
 }
